@@ -73,7 +73,9 @@ def brief(r):
     keys = ("a", "maxrate", "ct", "sopt", "est", "relay", "budget", "weight", "totalin", "reqout", "dust", "deadline",
             "height", "maxallowed", "start", "end", "width", "pos", "cur", "delta", "inc", "err", "rate", "fee",
             "change", "ans", "event")
-    return {k: r.get(k) for k in keys if r.get(k) not in (0, "", None, [], "none") or k == "a"}
+    return {k: r.get(k) for k in keys
+            if (r.get(k) not in (0, "", None, [], "none") and not (k == "sopt" and r.get(k) == -1)
+                and not (k == "weight" and r.get(k) == 1)) or k == "a"}
 
 
 def report(ck, v, recs, what, dec):
@@ -163,7 +165,8 @@ def decide(ck, directed):
 def controls(ck, recs, dec, tag):
     """corrupt one recorded value of an accepted batch: the validator must reject it."""
     done = []
-    for field, pick in (("cur", lambda r: r.get("a") in ("Inc", "Bump") and r.get("inc") == 1),
+    for field, pick in (("cur", lambda r: r.get("a") in ("Inc", "Bump") and r.get("inc") == 1
+                         and (r["delta"] * r["pos"]) % 1000 != 500),      # not at a tie: +1 is never allowed
                         ("fee", lambda r: r.get("a") == "Pub" and r.get("ans") == "ok"),
                         ("maxallowed", lambda r: r.get("a") == "Init" and r.get("live") == 1)):
         cands = [i for i, r in enumerate(recs) if pick(r)]
@@ -233,7 +236,7 @@ def run(ck):
     os.makedirs(sched, exist_ok=True)
     for i, f in enumerate(f1 + f2):
         shutil.copy(f, os.path.join(sched, "b_%04d_%s.ndjson" % (i, "ff" if f in f1 else "pub")))
-    dnames = sorted(n[:-7] for n in os.listdir(DIRECTED) if n.endswith(".ndjson"))
+    dnames = sorted(n[:-7] for n in os.listdir(DIRECTED) if n.endswith(".ndjson"))   # d_*: decide(); x_*: as generated
     for n in dnames:
         shutil.copy(os.path.join(DIRECTED, n + ".ndjson"), os.path.join(sched, "b_directed_%s.ndjson" % n))
 
@@ -249,7 +252,7 @@ def run(ck):
     directed, generated = {}, []
     for tr in split_traces(replay):
         fn = os.path.basename(tr[0].get("file", ""))
-        if fn.startswith("b_directed_"):
+        if fn.startswith("b_directed_d_"):
             directed[fn[len("b_directed_"):-7]] = tr
         else:
             generated += tr
@@ -278,11 +281,11 @@ def run(ck):
                             name="val_%s_%d" % (tag, k), timeout=1500)
             if v["ok"]:
                 ck.cov["traces_validated_against_impl"] += sum(1 for r in batch if is_reset(r))
-                if k == 0:
-                    controls(ck, batch, dec, tag)
             else:
                 nviol += 1
                 report(ck, v, batch, "%s behaviours" % tag, dec)
+        if nviol == 0:
+            controls(ck, recs, dec, tag)
     distinct = set()
     for tr in split_traces(generated) + split_traces(free):
         distinct.add(core.sha(str([(r.get("a"), r.get("ct"), r.get("height"), r.get("ans"), r.get("maxrate"), r.get("sopt"),
